@@ -12,6 +12,7 @@ fn runs_for(target: &str) -> u64 {
     "codec" => 1_500_000,
     "rope_prog" => 600_000,
     "tree_prog" => 400_000,
+    "sched_prog" => 120_000,
     _ => 500_000,
   }
 }
